@@ -184,9 +184,12 @@ func (g *qgen) set(typ string, depth int) []*Node {
 		}
 	}
 	n := 1 + g.r.Intn(4)
+	if typ == "Query" {
+		n = 2 + g.r.Intn(3)
+	}
 	for i := 0; i < n; i++ {
 		switch k := g.r.Intn(100); {
-		case k < 30 && len(leaves) > 0:
+		case k < 30 && len(leaves) > 0 && typ != "Query":
 			out = append(out, g.field(t, leaves[g.r.Intn(len(leaves))], depth))
 		case k < 62 && len(comps) > 0 && depth > 0:
 			out = append(out, g.field(t, comps[g.r.Intn(len(comps))], depth))
